@@ -938,7 +938,9 @@ def judge_probe(c, io, ml, stats):
                 why = "the generated bodies of parameter.hpp are stuck on this probe: " + ml[:80]
             else:
                 e = io["echo"]
-                got = {"dup": e.get("dup"), "ct": e.get("ct"), "map": impl_map(e, "m:"), "merged": impl_map(e, "g:"),
+                # a tree without checkTypes() (before repair F27) reports "absent": nothing is ever thrown up front
+                got = {"dup": e.get("dup"), "ct": "ok" if e.get("ct") == "absent" else e.get("ct"),
+                       "map": impl_map(e, "m:"), "merged": impl_map(e, "g:"),
                        "look": {int(k[2:]): v for k, v in e.items() if k.startswith("l:")}}
                 for key in ("dup", "ct", "map", "merged", "look"):
                     if got[key] != doc[key]:
